@@ -4,6 +4,7 @@ from vmon import gen
 from vmon.checks.common import obs, fail, both_views, random_prefix, apply_prefix
 
 SPLIT_WAITS = "seq"   # worker: every fifth case is built from relative messages with rests split into adjacent waits
+SCALE = True   # worker: every fortieth case is blown up by scale_case below
 PROP = "C14"
 ALSO = ("C20",)  # Key.transpose_key's contract speaks for C20; a key that becomes undefined is a C14 violation too
 MONITORS = ["transpose"]
@@ -21,6 +22,14 @@ FLOORS = {"quick": {"transpose.exact_shift.armed": 1500, "transpose.key_events.a
           "thorough": {"transpose.exact_shift.armed": 50000, "transpose.key_events.armed": 50000}}
 INTERVALS = [0, 1, -1, 2, -3, 5, 7, -7, 11, -11, 12, -12, 24, -24, 13, -13, 30, -30, 88, -88, 100, -100, 36, -36]
 
+
+def scale_case(case, i):
+    if case["bar"]:
+        return
+    sp = case["seq"]
+    sp["notes"] = gen.big_notes(i, chans=(0, 1), pitches=(22, 40, 64, 90, 107), lmin=1, lmax=40, gap=(0, 30))
+    sp.pop("pad", None)
+    case["prefix"] = []
 
 def make_case(rng, i, tier):
     zone = rng.choice(["low", "high", "mid", "both"])
